@@ -630,3 +630,36 @@ def secp_range(rep, tier):
             r, m = pth.ctx.prove(z3.And(c.t >= 0, c.t < P))
             require(rep, r, "jacobian_double result[%d] in [0, P)" % i, pth.decisions, rpj("jacobian_double"))
     core.explore(run_dbl, ctx_kwargs=dict(mul="uf"), on_path=on_path2)
+
+
+# ---------------------------------------------------------------------------
+# thorough: the projective / Jacobian formulas on WHOLE small curves (exact bit-vectors, real control flow): the obligations of
+# C07 (optimized modules against the reference affine law) and C18 (secp256k1 Jacobian code on a prime-order curve), which decide
+# every special position -- equal, opposite, identity operands, every representative -- that the generic-path identities above
+# reach only through their case analysis.  Imported lazily: c07 and c18 import this module.
+def _small_opt(curve):
+    def f(rep, tier):
+        from . import c07
+        p_, b_, n_ = [c for c in c07.small_curves(23) if c[0] == 7][0]
+        rep.encoded(mod(CURVES[curve]).add, mod(CURVES[curve]).double, mod(CURVES[curve]).neg, mod(CURVES[curve]).multiply)
+        c07._check_small_optimized(rep, curve, p_, b_, n_)
+    return f
+
+
+for _c in ("bn128", "bls12_381"):
+    obligation("C13", "small_curve_optimized_vs_reference_%s_p7" % _c, tier="thorough", timeout=3000,
+               bound="y^2 = x^3 + 2 over GF(7): optimized add / double / neg on EVERY pair of projective triples (every representative, z = 0 included) against the reference affine add; multiply for every n in [0, 19] (the C07 obligation)")(_small_opt(_c))
+
+
+def _small_secp(part):
+    def f(rep, tier):
+        from . import c18
+        sp = mod(c18.SP)
+        rep.encoded(sp.jacobian_add, sp.jacobian_double, sp.from_jacobian, sp.to_jacobian)
+        p_, b_, n_ = c18.SMALL_PRIME_ORDER[0]
+        c18._small_secp(rep, p_, b_, n_, part)
+    return f
+
+
+obligation("C13", "small_prime_order_curve_p7_jacobian", tier="thorough", timeout=3000,
+           bound="secp256k1 constants rebound to y^2 = x^3 + 3 over GF(7) (N = 13): jacobian_add / jacobian_double on every pair of points and EVERY Jacobian representative against the reference affine law (the C18 obligation)")(_small_secp("jacobian"))
